@@ -68,3 +68,64 @@ func TestC15(t *testing.T) {
 	}
 	vtx.Explore(t, profile("c15-teardown", cfgs), r)
 }
+
+// TestC15Rich: allocations that own several permissions and three channel
+// bindings (and, over a stream listener, a TCP allocation with pending and
+// bound peer connections) are ended in every way; teardown must release every
+// one of the owned entries exactly once.
+func TestC15Rich(t *testing.T) {
+	r := rep.New("C15")
+	defer r.Write()
+	depth := 2
+	if rep.Thorough() {
+		depth = 3
+	}
+	sec := time.Second
+	udp := &vtx.Profile{
+		Name: "c15-rich-udp", Configs: []vtx.Config{{}, {Stream: true}, {Lifetime: 100 * sec, Perm: 40 * sec, Chan: 70 * sec}},
+		Clients: []string{"c1", "c2"}, Peers: []string{"A", "A2", "B"}, Chans: []uint16{prof.N1, prof.N2, prof.N3},
+		Depth: depth, Drain: true, Resources: true, Lifecycle: true, Quiet2h: true,
+		Tags: map[string]bool{"resources": true, "lifecycle": true, "count": true},
+		Setup: func(vtx.Config) []vtx.Event {
+			return []vtx.Event{prof.E("alloc", "c1", 0), prof.E("alloc", "c2", 0), prof.E("chan", "c1", prof.N1, "A"), prof.E("chan", "c1", prof.N2, "B"),
+				prof.E("chan", "c1", prof.N3, "A2"), prof.E("perm", "c2", 0, "A", "B")}
+		},
+		Menu: func(m *vtx.Model, now time.Time, _ int) []vtx.Event {
+			if m.Closed {
+				return nil
+			}
+			var e []vtx.Event
+			for _, c := range []string{"c1", "c2"} {
+				if m.Gone[c] || m.Allocs[c] == nil {
+					continue
+				}
+				e = append(e, vtx.Event{K: "refresh", C: c, L: 0}, vtx.Event{K: "fail-relay", C: c, L: -1})
+				if m.Cfg.Stream {
+					e = append(e, vtx.Event{K: "close-control", C: c, L: -1})
+				}
+			}
+			e = append(e, vtx.Event{K: "close-server", L: -1})
+
+			return append(e, vtx.AdvanceMenu(m, now, []time.Duration{time.Nanosecond}, nil)...)
+		},
+	}
+	vtx.Explore(t, udp, r)
+	tcp := prof.IsolationTCP("c15-rich-tcp", map[string]bool{"resources": true, "lifecycle": true, "count": true, "tcp": true})
+	tcp.Depth = depth + 1
+	tcp.Lifecycle, tcp.Quiet2h = true, true
+	base := tcp.Menu
+	tcp.Menu = func(m *vtx.Model, now time.Time, i int) []vtx.Event {
+		if m.Closed {
+			return nil
+		}
+		e := base(m, now, i)
+		for _, c := range []string{"c1", "c2"} {
+			if !m.Gone[c] && m.Allocs[c] != nil {
+				e = append(e, vtx.Event{K: "fail-relay", C: c, L: -1}, vtx.Event{K: "close-control", C: c, L: -1})
+			}
+		}
+
+		return append(e, vtx.Event{K: "close-server", L: -1})
+	}
+	vtx.Explore(t, tcp, r)
+}
